@@ -144,17 +144,24 @@ class TaskScheduler(object):
         will never be continued, the contexts are paused here (innermost first), so that what
         they established does not outlive the computation. A task that is executing right now
         (it made the synchronous call we are in) keeps its contexts: its code is still running.
+        So do the tasks below it on the stack: they are waiting for it, their contexts are
+        meant to be active while it runs (pausing them now would also restore their saved
+        values underneath the overrides of the running task), and the loops that wait for
+        them are still there to continue them.
 
         """
         abandoned = self._tasks[first:]
         del self._tasks[first:]
+        below_running = False
         for entry in reversed(abandoned):
             if isinstance(entry, AsyncTask) and not entry.is_computed():
                 task = entry
                 # its dependencies leave the stack with it: if the task is awaited again
                 # later, they have to be scheduled again
                 task._dependencies_scheduled = False
-                if not task.running:
+                if task.running:
+                    below_running = True
+                elif not below_running:
                     task._pause_contexts()
 
     def _schedule_batch(self, batch):
